@@ -4,6 +4,7 @@ format: entry i of a flat group starts at  A + H + i*BL  where H is the
 dimension size and BL / N are the *wire* blockLength / numInGroup; iterators
 compare and subtract by index; resize/clear write only numInGroup.
 """
+import re
 from common import *
 import rint
 from symex import *
@@ -70,6 +71,15 @@ class Rows:
         key = "%s|%s" % (row, "/".join(str(x) for x in (fn.get("cls_targs") or [])[1:])[-90:])
         self.count[row] = self.count.get(row, 0) + 1
         errs = [e for e in errs if e]
+        if "no-asserts" in self.lib.label:
+            # configuration without size checks: views carry no `end` and nothing is asserted; the geometry
+            # clauses of the rows are the same (the two configurations are separate #if / #else code)
+            kept = []
+            for e in errs:
+                parts = [x for x in e.split("; ") if not re.search(r"\.end = |end_ptr|must assert|SIZE_CHECK|asserted|must check|precondition", x)]
+                if parts:
+                    kept.append("; ".join(parts))
+            errs = kept
         if errs:
             self.chk.violation(self.rule, row, where(fn), "row %s, instantiation %s [%s]: %s"
                                % (row, fn["qn"][:180], self.lib.label, "; ".join(errs)))
@@ -421,7 +431,43 @@ def check_iterators(chk, lib, limit=None):
             got = th.get("ptr")
             if strip_cast(got) != P - n * BLs and not mul_neg_equal(got, P, n, BLs):
                 errs.append("ptr after -= n = %s, expected this.ptr-n*block_length" % show(got))
+            idx = th.get("index") if isinstance(th, Obj) else None
+            if idx is None or strip_cast(idx) != I - n:
+                errs.append("index after -= n = %s, expected this.index-n" % show(idx))
             R.done(f, "ra.operator-=", errs)
+
+        def stripped(v):
+            """iterator object with casts of its integer fields removed"""
+            if not isinstance(v, Obj):
+                return v
+            o = Obj(v.cls, v.name, v.symbolic)
+            for k_, x in v.fields.items():
+                o.fields[k_] = strip_cast(x) if isinstance(x, Lin) else x
+            return o
+        # it + n, it - n (member functions taking the difference type) and n + it: a new iterator, `it` unchanged
+        for f in [x for x in lib.fns(tpl, "operator+") + lib.fns(tpl, "operator-") if x.get("cls") == cls]:
+            ps = f.get("params") or []
+            if len(ps) != 1 or "random_access_iterator" in ps[0]["t"]:
+                continue
+            sign = 1 if f["name"] == "operator+" else -1
+            p = single(lib, f)
+            sn = n if sign > 0 else -n
+            errs = [iter_is(stripped(p.ret), P + sn * BLs, BLs, I + sn, None, "it %s n" % ("+" if sign > 0 else "-")), no_writes(p)]
+            th = p.post.get("this")
+            if isinstance(th, Obj) and (th.get("ptr") not in (None, P) or th.get("index") not in (None, I)):
+                errs.append("the operand iterator is modified")
+            R.done(f, "ra.it%sn" % ("+" if sign > 0 else "-"), errs)
+        for f in [x for x in lib.by_name.get(("", "operator+"), []) if len(x.get("params") or []) == 2 and cls == rint.clean(x["params"][1]["t"])]:
+            p = single(lib, f)
+            R.done(f, "ra.n+it", [iter_is(stripped(p.ret), sym("it.ptr") + n * sym("it.block_length"), sym("it.block_length"), sym("it.index") + n, None, "n + it")])
+        # post-increment / post-decrement: return the old position, advance this
+        for nm, dptr, didx in (("operator++", BLs, 1), ("operator--", -BLs, -1)):
+            f = m(nm, 1)
+            if f:
+                p = single(lib, f)
+                errs = [iter_is(stripped(p.ret), P, BLs, I, None, "value of it" + nm[-2:]),
+                        iter_is(stripped(p.post.get("this")), P + dptr, BLs, I + didx, None, "iterator after it" + nm[-2:])]
+                R.done(f, "ra.post" + nm[-2:], errs)
         for f in [x for x in lib.fns(tpl, "operator-") if x.get("cls") == cls]:
             ps = f.get("params") or []
             if ps and "random_access_iterator" in ps[0]["t"]:
@@ -613,3 +659,49 @@ def check_bases(chk, lib, limit=None):
                     errs.append("member view %s, expected {prev + size_bytes(prev) = %s, view.end}" % (show(rv), show(want)))
             R.done(f, "view." + nm, errs + [no_writes(p)])
     return R.count
+
+
+def check_ctors(chk, lib):
+    """BASE.ctor: the (pointer, size) constructors of the view classes establish end = begin + size: every
+    SBEPP_SIZE_CHECK of every derived view is relative to that `end` (C10 anchor `end pointer carried by every view`)"""
+    n = 0
+    seen = set()
+    for fn in lib.eng.fns.values():
+        if not fn["file"].endswith("sbepp.hpp") or not fn.get("ctor") or fn.get("body") is None:
+            continue
+        ps = fn.get("params") or []
+        if len(ps) < 2 or not ps[0]["t"].rstrip().endswith("*"):
+            continue
+        t1 = ps[1]["t"].replace("const ", "")
+        kind = "size" if t1 in ("unsigned long", "std::size_t") else ("end" if t1.rstrip().endswith("*") else None)
+        if kind is None:
+            continue
+        key = (fn.get("cls_tpl"), kind, len(ps))
+        if key in seen:
+            continue
+        seen.add(key)
+        try:
+            s = lib.summary(fn)
+        except (AnalysisBroken, PathLimit):
+            continue
+        errs = []
+        a0, a1 = sym(ps[0]["name"]), sym(ps[1]["name"])
+        for p in s.live:
+            th = p.post.get("this")
+            if not isinstance(th, Obj):
+                continue
+            b, e = th.fields.get("begin"), th.fields.get("end")
+            if b is None:
+                continue
+            if not isinstance(b, Lin) or b != a0:
+                errs.append("begin = %s, expected the pointer argument" % (show(b) if isinstance(b, Lin) else b))
+            want = a0 + a1 if kind == "size" else a1
+            if e is not None and (not isinstance(e, Lin) or e != want):
+                errs.append("end = %s, expected %s" % (show(e) if isinstance(e, Lin) else e, show(want)))
+        n += 1
+        row = "ctor.%s(ptr,%s)" % ((fn.get("cls_tpl") or "?").split("::")[-1], kind)
+        if errs:
+            chk.violation("BASE.ctor", row, where(fn), "%s [%s]: %s" % (fn["qn"][:160], lib.label, "; ".join(sorted(set(errs)))))
+        else:
+            chk.ok("BASE.ctor", row, {"function": fn["qn"][:120]})
+    return n
